@@ -331,3 +331,76 @@ def normalize_next_lengths(ctx, rule):
     else:
         ctx.fail(rule, key, wh, "Normalize::next: %s" % problem,
                  {"witness": "'a' + U+0300 (decomposed à) is no longer composed: the decomposed spelling stops matching the precomposed title"})
+
+
+# ---------------------------------------------------------------------------------------------------------------------
+def no_shadowed_defaults(ctx, rule):
+    """The provided methods of the crate's own traits (Word::len / is_empty / is_function / dist, LimitSort::limit_sort*) are
+    what every rule reads when it meets a call through the trait.  An impl that overrides one of them (`impl Word for
+    WordView { fn len(&self) -> usize { .. } }`) silently replaces that body for one type: the rules would still be reading
+    the default.  Expected count: zero; the number of provided methods found is the vacuity guard."""
+    facts = ctx.facts
+    provided = {}
+    for b in facts.fns():
+        if b.kind == "method" and not b.impl_trait and not b.impl_self and "::" in b.id:
+            trait, name = b.id.rsplit("::", 1)
+            provided.setdefault(trait, set()).add(name)
+    n = sum(len(v) for v in provided.values())
+    bad = []
+    for b in facts.fns():
+        if b.kind == "method" and b.impl_trait in provided:
+            name = b.id.rsplit("::", 1)[-1]
+            if name in provided[b.impl_trait]:
+                bad.append(b)
+    for b in bad:
+        ctx.fail(rule, "shadowed-default:%s" % b.id, b.where(), "%s overrides the provided method of %s: calls through the trait on `%s` "
+                 "no longer run the body the rules analyse" % (b.id, b.impl_trait, b.impl_self),
+                 {"witness": "words of that type report another length / distance / function-word status than the trait's default computes"})
+    if not bad:
+        ctx.ok(rule, "shadowed-default", "-", "no impl overrides a provided method of the crate's traits (%d provided methods in %d traits)"
+               % (n, len(provided)))
+    ctx.floor(rule, "provided_trait_methods", n, 4)
+
+
+def build_mode_cfgs(ctx, rule):
+    """R01.k: the non-test sources contain no code that is compiled in or out by the build mode (`cfg(debug_assertions)`,
+    `cfg!(debug_assertions)`, `cfg(overflow_checks)`) or by the pointer width / architecture: the facts are extracted from one
+    configuration (debug assertions and overflow checks on), so code guarded that way is invisible to every other rule, and
+    C01 demands that the checked and the unchecked build return the same hits.  `debug_assert!` itself is the only accepted
+    build-mode dependence (its conditions are obligations of R01.g).  Lexical rule over rust/core/src and rust/wasm/src;
+    expected count zero, the number of files and `debug_assert` uses seen is the vacuity guard."""
+    import os
+    import re
+    repo = ctx.facts.meta.get("repo") or "/repo"
+    pat = re.compile(r"cfg!?\s*\(([^)]*\b(debug_assertions|overflow_checks|target_pointer_width|target_arch|target_os|panic)\b[^)]*)\)")
+    files = 0
+    dbg = 0
+    hits = []
+    for base in ("rust/core/src", "rust/wasm/src"):
+        for dp, dn, fns in os.walk(os.path.join(repo, base)):
+            for fn_ in sorted(fns):
+                if not fn_.endswith(".rs"):
+                    continue
+                files += 1
+                path = os.path.join(dp, fn_)
+                try:
+                    lines = open(path, encoding="utf-8").read().split("\n")
+                except OSError:
+                    continue
+                in_tests = False
+                for i, l in enumerate(lines):
+                    if l.strip().startswith("#[cfg(test)]"):
+                        in_tests = True            # test modules close the files of this crate
+                    code = l.split("//")[0]
+                    if "debug_assert" in code and not in_tests:
+                        dbg += 1
+                    m = pat.search(code)
+                    if m and not in_tests:
+                        hits.append((os.path.relpath(path, repo), i + 1, m.group(0)))
+    for rel, ln, txt in hits:
+        ctx.fail(rule, "build-mode-cfg:%s:%s" % (rel, txt.replace(" ", "")), "%s:%d" % (rel, ln), "`%s` compiles code in or out by the build "
+                 "configuration: the analysed configuration does not contain the other variant, and checked / unchecked builds may differ"
+                 % txt, {"witness": "a release build takes a path no debug run and no rule has seen"}, kind="S")
+    if not hits:
+        ctx.ok(rule, "build-mode-cfg", "-", "no build-mode / target cfg in the non-test sources (%d files, %d debug_assert uses)" % (files, dbg), kind="S")
+    ctx.floor(rule, "source_files_scanned", files, 30)
